@@ -362,7 +362,7 @@ def body(ctx):
     lib.c_var2h.argtypes = [ctypes.c_int] * 6 + [ctypes.c_void_p, ctypes.c_void_p, ctypes.c_longlong, ctypes.c_void_p]
     guards = guard_table(C.REPO)
     stats = {"kernel_bit_equal": 0, "kernel_within_tol": 0, "wrapper_bit_equal": 0, "wrapper_within_tol": 0,
-             "rat_cases": 0, "variants": 0, "periods_checked": 0, "periods_nonmissing": 0, "final_period_returned": 0}
+             "rat_cases": 0, "variants": 0, "periods_checked": 0, "periods_nonmissing": 0, "final_period_returned": 0, "malformed_differences": 0}
 
     # ---- the Cython boundary: record the arguments, pad the arrays with a sentinel
     class Proxy:
@@ -454,6 +454,7 @@ def body(ctx):
                 stats["periods_nonmissing"] += sum(1 for x in outs + last if not isnan(x))
                 stats["final_period_returned"] += sum(1 for x in last if not isnan(x))
         reqs.append(f"kernel {P} {rain} {maxgap} {C.f2h(EPS)} {hstart} {nvalh} {C.ilist(secs)} {C.flist(vals)}")
+        case = {**case, "_wellformed": wellformed}
         pend.append(("kernel", impl, case, scale))
         if case.get("rat"):
             rv = "[" + ",".join("nan" if isnan(v) else C.rat(v) for v in vals) + "]"
@@ -551,7 +552,7 @@ def body(ctx):
                         stats["periods_nonmissing"] += sum(1 for x in outs if not isnan(x))
                         stats["final_period_returned"] += sum(1 for x in outs[-1:] if not isnan(x))
                 reqs.append(f"wrapper {P} {rain} {maxgap} {C.f2h(EPS)} {C.ilist(secs)} {C.flist(vals)}")
-                pend.append(("wrapper", impl, vcase, scale))
+                pend.append(("wrapper", impl, {**vcase, "_wellformed": wellformed}, scale))
             else:
                 same = (res[0] == ref[0]) and (
                     res[1] == ref[1] if res[0] == "err" else
@@ -756,6 +757,11 @@ def body(ctx):
                 ok = ok and impl[0] is not None and int(hs) == impl[0]
                 if ok:
                     stats["wrapper_bit_equal" if bit else "wrapper_within_tol"] += 1
+        if not ok and not case.get("_wellformed", True):
+            # outside the property's quantifier (decreasing stamps, bad flags, < 2 observations ...): which error is
+            # raised, or whether one is, is not constrained; counted, not a disagreement
+            stats["malformed_differences"] += 1
+            continue
         if not ok:
             shown = impl if isinstance(impl, str) else (
                 fmt_out(impl) if kind != "wrapper" else f"ok {impl[0]} " + fmt_out(impl[1])[3:])
